@@ -20,6 +20,7 @@ def native_dir():
     shutil.copytree(os.path.join(ROOT, 'native'), dst, ignore=shutil.ignore_patterns('target'))
     p = os.path.join(dst, 'Cargo.toml')
     s = open(p).read().replace('path = "/repo/minijinja"', 'path = "%s/minijinja"' % REPO)
+    s = s.replace('path = "/repo/minijinja-autoreload"', 'path = "%s/minijinja-autoreload"' % REPO)
     open(p, 'w').write(s)
     return dst
 
